@@ -74,6 +74,28 @@ void run_case(const uint8_t* data, size_t size, vf::Case& c) {
   int step = 0;
   for (auto& op : uc.ops) {
     step++;
+    // One setter call in eight assigns back what the object already holds (u.host = u.host),
+    // for hosts in another spelling of the same address / name: values that depend on the
+    // current state, which independent generation never produces.  Chosen by hash bits.
+    if (((c.hash >> (5 + 3 * (step % 16))) & 7) == 5 && op.setter >= 1 && op.setter <= 9) {
+      vf::Snapshot cur = vf::snap(u);
+      std::string v;
+      switch (op.setter) {
+        case 1: v = cur.protocol; break; case 2: v = cur.username; break; case 3: v = cur.password; break;
+        case 4: case 5: {
+          v = cur.hostname;
+          if (!v.empty() && v[0] == '[') { size_t k = v.rfind(':'); if (k != std::string::npos && k + 1 < v.size() && v[k + 1] != ']' && v.size() - k - 2 < 4) v.insert(k + 1, "0"); for (char& ch : v) if (ch >= 'a' && ch <= 'f') ch = (char)(ch - 32); }
+          else if (cur.host_type == 1) v += ".";
+          else for (char& ch : v) if (ch >= 'a' && ch <= 'z') ch = (char)(ch - 32);
+          if (op.setter == 4 && !cur.port.empty()) v += ":" + cur.port;
+          break;
+        }
+        case 6: v = cur.port; break; case 7: v = cur.pathname; break; case 8: v = cur.search; break; default: v = cur.hash; break;
+      }
+      op.value = v;
+      if (c.want_render) c.render += " [step " + std::to_string(step) + ": the value is replaced by the current one, \"" + vf::show(v) + "\"]";
+      VF_TAG("setter_assigns_back_current_value");
+    }
     bool r_u = vf::apply_setter(u, op.setter, op.value);
     bool r_a = vf::apply_setter(a, op.setter, op.value);
     if (r_u != r_a)
